@@ -17,8 +17,12 @@ import (
 // SendBundle transmits an outbounding bundle.
 func (c *Core) SendBundle(bndl *bpv7.Bundle) {
 	// The sequence number must be assigned first: the BundleDescriptor derives the store's key from the bundle's ID
-	// and stores the serialized bundle, and a SignatureBlock covers the primary block.
-	c.idKeeper.update(bndl)
+	// and stores the serialized bundle, and a SignatureBlock covers the primary block. The ID of a bundle which is
+	// still stored, e.g., numbered before a restart, must not be used again: the new bundle would never be stored.
+	c.idKeeper.updateUnless(bndl, func(bid bpv7.BundleID) bool {
+		_, err := c.store.QueryId(bid.Scrub())
+		return err == nil
+	})
 
 	if c.signPriv != nil && bndl.IsAdministrativeRecord() {
 		c.sendBundleAttachSignature(bndl)
